@@ -50,6 +50,14 @@ Proof. exact resolve_exact. Qed.
 Theorem C20_resolve_file_shortcut : forall fs e,
   isfile fs (strip_scheme e) = true -> resolve_local fs e = [strip_scheme e].
 Proof. exact resolve_file_shortcut. Qed.
+(* the text the paths are matched against is the item itself or './' + item (relative items only), and a
+   './'-relative name matches './' + item exactly when the bare name matches the item *)
+Theorem C20_eff_expr_shape : forall e,
+  eff_expr e = strip_scheme e \/
+  (is_abs (strip_scheme e) = false /\ eff_expr e = dotslash ++ strip_scheme e).
+Proof. exact eff_expr_shape. Qed.
+Theorem C20_accepts_dotslash : forall p s, accepts (dotslash ++ p) (dotslash ++ s) = accepts p s.
+Proof. exact accepts_dotslash. Qed.
 (* each file at most once per item *)
 Theorem C20_resolve_nodup : forall fs e,
   wf_fs fs = true -> NoDup (files fs) -> NoDup (resolve_local fs e).
